@@ -4,7 +4,8 @@
     These lemmas are about the program generated from the CURRENT source: when balance.py is edited so that the
     generated program means something else (other fields, other dictionaries, reads moved before stores, the cut on
     another date or as `continue`, another concatenation order), they stop compiling, and the property files that
-    cite them (C07, C08) report a broken proof obligation.  The scripts compute with the generated tables but do not
+    cite them (C07, C08) report a broken proof obligation.  This file: one transaction ([bal_step], cited by C08 and C07);
+    Proofs/BalanceGenReplay.v: the list the loop walks and the whole of BalanceSet.__init__ (cited by C07).  The scripts compute with the generated tables but do not
     mention their text, so rewrites that leave the meaning alone (two stores to different dictionaries swapped, a
     sum bound to a local first) keep compiling. *)
 From Coq Require Import List ZArith Bool Lia.
@@ -35,28 +36,6 @@ Proof.
   - reflexivity.
   - destruct (goes_negative _ && negb allow); reflexivity.
   - destruct (goes_negative _ && negb allow); reflexivity.
-Qed.
-
-Lemma fold_left_ext {A B} (f g : A -> B -> A) (l : list B) (a : A) :
-  (forall x y, f x y = g x y) -> fold_left f l a = fold_left g l a.
-Proof. intros H; revert a; induction l as [|x l IH]; intros a; simpl; [reflexivity|]. rewrite H. apply IH. Qed.
-
-(** the list the loop walks: in + intra + out, sorted by instant, cut by `break` at the first local date after to_date *)
-Lemma bal_replay_gen_agrees (to_day : Z) (t : txs) :
-  bal_replay_gen to_day t =
-  take_until (fun x => local_day (t_ts x)) to_day (sort_by t_us (map TIn (t_ins t) ++ map TIntra (t_intras t) ++ map TOut (t_outs t))).
-Proof.
-  unfold bal_replay_gen. cbv [gen_bal_cut gen_bal_concat flat_map bal_list_of bal_cut_day_of].
-  rewrite ?app_nil_r. reflexivity.
-Qed.
-
-(** BalanceSet.__init__ *)
-Lemma balances_gen_agrees (allow : bool) (to_day : Z) (exs hos : list str) (t : txs) :
-  balances_gen allow to_day exs hos t = balances allow to_day exs hos t.
-Proof.
-  unfold balances_gen, balances. rewrite bal_replay_gen_agrees.
-  rewrite (fold_left_ext (bal_step_gen allow) (bal_step allow)) by (intros; apply bal_step_gen_agrees).
-  reflexivity.
 Qed.
 
 (** non-vacuity / sequential semantics: a transfer of 7 units from account (1, 2) to itself, sent 7, received 6.
